@@ -178,11 +178,17 @@ def param_variants(name, rule):
             out.append({'tag': 'extra-json', 'ok': True,
                         'branch': GOOD_BRANCHES[1], 'branch_from': None,
                         'extra': {'unexpected': 'x'}})
+        # a body that repeats the URL parameter: the validated URL wins
+        out.append({'tag': 'body-shadows-url', 'ok': True,
+                    'branch': GOOD_BRANCHES[2], 'branch_from': None,
+                    'extra': {'branch': 'master'}})
     elif '<int:pr_id>' in rule:
         for i, n in enumerate([1, 7, 123456]):
             out.append({'tag': 'ok%d' % i, 'ok': True, 'pr_id': n})
         for n in [0, -1, 'abc', '1.5', '']:
             out.append({'tag': 'bad-pr', 'ok': False, 'pr_id': n})
+        out.append({'tag': 'body-shadows-url', 'ok': True, 'pr_id': 12,
+                    'extra': {'pr_id': 0}})
     elif '<string:job_id>' in rule:
         out.append({'tag': 'ok0', 'ok': True, 'job_id': 'nope'})
     else:
